@@ -1,3 +1,72 @@
+/-
+  C10: the zone queries raise no flag at all on tame tables.
+
+  `ok` = `Safe` (no oob / unset / fuel flag: Cctz/Proofs/LdQuery.lean, from `TableIdx`) and `NoOvf`
+  (no signed overflow: Cctz/Proofs/QoBreak.lean, QoMake.lean, QoTrans.lean, from `Tame`).  The only
+  place where `Tame` is not enough is the 400-year shift of `BreakTime` (QoTame.lean).
+-/
 import Cctz.Model.Tz
 import Cctz.Spec.TableSem
 import Cctz.Spec.TableTame
+import Cctz.Proofs.QoBasic
+import Cctz.Proofs.QoBreak
+import Cctz.Proofs.QoMake
+import Cctz.Proofs.QoTrans
+import Cctz.Proofs.QoTame
+
+namespace Cctz.Qo
+open Cctz Cctz.Tz Cctz.Spec
+
+/-- `BreakTime` below the 400-year shift: no flag for every `int64` instant, from `Tame` alone -/
+theorem breakTimeCore_ok {z : Zone} (tm : Tame z) (h : Nat) (t : Int) (ht : inI64 t) :
+    (breakTimeCore z h t).ok :=
+  (ok_iff _).2 ⟨Ld.breakTimeCore_safe z (tame_idx tm) h t, breakTimeCore_novf tm h t ht⟩
+
+/-- `BreakTime`: no flag when the last entry of an extended table is strictly beyond
+`INT64_MAX mod kSecsPer400Years` -/
+theorem breakTime_ok_of {z : Zone} (tm : Tame z)
+    (hx : z.extended = true → 7161147008 ≤ timeOf z (z.transitions.size - 1))
+    (h : Nat) (t : Int) (ht : inI64 t) : (breakTime z h t).ok :=
+  (ok_iff _).2 ⟨Ld.breakTime_safe z (tame_idx tm) h t, breakTime_novf tm h t ht (fun he => by
+    have := hx he
+    simp only [inI64, i64min, i64max] at ht
+    omega)⟩
+
+/-- below `max()` `Tame` is enough: the boundary case needs `t = max()` exactly -/
+theorem breakTime_ok_below {z : Zone} (tm : Tame z) (h : Nat) (t : Int) (ht : inI64 t)
+    (hlt : t < i64max) : (breakTime z h t).ok :=
+  (ok_iff _).2 ⟨Ld.breakTime_safe z (tame_idx tm) h t, breakTime_novf tm h t ht (fun he => by
+    obtain ⟨ly, _, hL, _⟩ := tm.ext he
+    simp only [i64max] at hlt
+    omega)⟩
+
+/-- on tables that are not rule-extended `Tame` is enough -/
+theorem breakTime_ok_nonext {z : Zone} (tm : Tame z) (hne : z.extended = false)
+    (h : Nat) (t : Int) (ht : inI64 t) : (breakTime z h t).ok :=
+  breakTime_ok_of tm (fun he => by rw [hne] at he; cases he) h t ht
+
+theorem makeTime_ok_of {z : Zone} (tm : Tame z) (h : Nat) (cs : Fields) (vcs : Valid cs)
+    (hy : inI64 cs.y) : (makeTime z h cs).ok :=
+  (ok_iff _).2 ⟨Ld.makeTime_safe z (tame_idx tm) h cs vcs, (makeTime_nh tm h cs vcs hy).1⟩
+
+theorem convert_ok_of {z : Zone} (tm : Tame z) (h : Nat) (cs : Fields) (vcs : Valid cs)
+    (hy : inI64 cs.y) : (convert z h cs).ok :=
+  (ok_iff _).2 ⟨Ld.convert_safe z (tame_idx tm) h cs vcs, convert_novf tm h cs vcs hy⟩
+
+theorem nextTransition_ok_of {z : Zone} (tm : Tame z) (t : Int) : (nextTransition z t).ok :=
+  (ok_iff _).2 ⟨Ld.nextTransition_safe z (tame_idx tm) t, nextTransition_novf tm t⟩
+
+theorem prevTransition_ok_of {z : Zone} (tm : Tame z) (t : Int) : (prevTransition z t).ok :=
+  (ok_iff _).2 ⟨Ld.prevTransition_safe z (tame_idx tm) t, prevTransition_novf tm t⟩
+
+theorem makeTime_inRange {z : Zone} (tm : Tame z) (h : Nat) (cs : Fields) (vcs : Valid cs)
+    (hy : inI64 cs.y) :
+    inI64 (makeTime z h cs).val.1.pre ∧ inI64 (makeTime z h cs).val.1.trans ∧
+      inI64 (makeTime z h cs).val.1.post :=
+  (makeTime_nh tm h cs vcs hy).2
+
+/-- the tame table at the boundary really raises a flag -/
+theorem zBoundary_not_ok (h : Nat) : ¬ (breakTime zBoundary h i64max).ok := fun hok =>
+  zBoundary_ovf h ((ok_iff _).1 hok).2
+
+end Cctz.Qo
